@@ -448,7 +448,10 @@ fn dict_hist_family(cx: &mut Ctx, rng: &mut Rng, universe: &[(Vec<u8>, Vec<Vec<u
     }
     if std::env::var("ZV_C12_TRACE").is_ok() { eprintln!("dict_hist generated part done {:?}", std::time::SystemTime::now().duration_since(std::time::UNIX_EPOCH).map(|d| d.as_secs() % 100000)); }
     // (3) around the sampling switch (training data of more than 10 000 bytes and sample_ratio < 1)
-    let mut big: Vec<(u64, &str, usize)> = vec![(8, "rand256", 10_000), (8, "rand256_zt", 10_001), (10, "rand5skew", 10_001), (4, "rand256", 10_001), (11, "rand4", 10_002), (10, "runs", 10_000), (2, "rand256_zt", 70_000)];
+    let mut big: Vec<(u64, &str, usize)> = vec![(8, "rand256", 10_000), (8, "rand256_zt", 10_001), (10, "rand5skew", 10_001), (4, "rand256", 10_001), (11, "rand4", 10_002), (10, "runs", 10_000), (2, "rand256_zt", 70_000),
+        // variant 9 admits patterns of up to 300 bytes (the default maximum is 256): the 257- and 300-byte queries must be found by the
+        // dictionary and by its reloaded copies alike (the history serialises / saves before the late queries)
+        (9, "rand256", 2_500), (9, "rand5skew", 4_000)];
     if thorough { big.extend([(8, "rand5skew_zt", 20_001), (10, "rand256", 20_000), (9, "rand256_zt", 16_385), (5, "rand5skew", 10_001)]); }
     for (k, (variant, kind, n)) in big.into_iter().enumerate() {
         let seed = 3000 + k as u64;
